@@ -464,7 +464,10 @@ class Linker:
         # First, determine the list of possible optimizations!
         lst = []
         for relocation in self.dst.relocations:
-            sym_value = self.get_symbol_value(relocation.symbol_id)
+            sym_value = (
+                self.get_symbol_value(relocation.symbol_id)
+                + relocation.addend
+            )
             reloc_section = self.dst.get_section(relocation.section)
             reloc_value = reloc_section.address + relocation.offset
             rcls = self.dst.arch.isa.relocation_map[relocation.reloc_type]
@@ -634,7 +637,10 @@ class Linker:
         This involves hammering some specific bits in the section data
         according to symbol location and relocation location in the file.
         """
-        sym_value = self.get_symbol_value(relocation.symbol_id)
+        # The relocation refers to the symbol plus the addend (S + A):
+        sym_value = (
+            self.get_symbol_value(relocation.symbol_id) + relocation.addend
+        )
         section = self.dst.get_section(relocation.section)
 
         # Determine address in memory of reloc patchup position:
